@@ -4,7 +4,8 @@
    (b) trace cases: the loop skeleton of constrained_parafac executed on provenance tags against the
        provenance of the factors really returned (which recorded operator call produced them). *)
 From Coq Require Import List Arith ZArith QArith Bool.
-From TLV Require Import Base.PyList Base.Tensor Model.Constraints Corr.Common.
+From TLV Require Import Base.PyList Base.Tensor Corr.Common.
+From TLV Require Import Model.Constraints.
 Import ListNotations.
 
 (* Python values used as parameters: bool / int / float (None inside lists is the `None` of option) *)
@@ -40,15 +41,15 @@ Fixpoint list_eqb {A} (eqb : A -> A -> bool) (a b : list A) : bool :=
   | _, _ => false
   end.
 
-(* the twelve keyword values in the order of the signature *)
-Definition with_names (specs : list (@spec pv)) : list (kind * @spec pv) := combine all_kinds specs.
+(* the twelve keyword values in the order of the signature; dict keys are Python ints *)
+Definition with_names (specs : list (@zspec pv)) : list (kind * @zspec pv) := combine all_kinds specs.
 
-Definition model_table (n : nat) (specs : list (@spec pv)) : res (list (option (kind * pv))) :=
-  if Nat.eqb (length specs) 12 then validate_table pv_truthy n (with_names specs) else Err.
+Definition model_table (n : nat) (specs : list (@zspec pv)) : res (list (option (kind * pv))) :=
+  if Nat.eqb (length specs) 12 then zvalidate_table pv_truthy n (with_names specs) else Err.
 
 (* provenance tags: which computation produced a factor *)
 Inductive prov :=
-| PvRaw                       (* least-squares iterate / raw initial factor, no operator applied *)
+| PvRaw                       (* least-squares iterate / raw initial factor / the operator's input, no operator applied *)
 | PvUser (m : nat)            (* the user's initial factor of mode m, untouched *)
 | PvOp (k : kind) (p : pv)    (* output of the operator of constraint k with parameter p *)
 | PvOther.                    (* implementation side only: none of the above *)
@@ -61,38 +62,45 @@ Definition prov_eqb (a b : prov) : bool :=
   | _, _ => false
   end.
 
+Definition tag_op (k : kind) (p : pv) (_ : prov) : prov := PvOp k p.
+
 Definition tag_env : env (M := prov) :=
   mkEnv (fun _ _ _ _ => PvRaw) (fun _ _ _ _ _ _ => false) (fun _ _ _ => false).
 
-Definition model_trace (n : nat) (specs : list (@spec pv)) (user_init : bool) (fixed : list nat)
+Definition model_trace (n : nat) (specs : list (@zspec pv)) (user_init : bool) (fixed : list nat)
            (n_outer n_inner : nat) : res (list prov) :=
   if Nat.eqb (length specs) 12 then
-    constrained_cp pv_truthy PvOther (fun k p _ => PvOp k p) (fun _ _ => PvRaw) (fun _ _ => PvRaw) tag_env
-                   n (with_names specs)
-                   (if user_init then IUser (map PvUser (seq 0 n)) else IComputed (repeat PvRaw n))
+    constrained_cp PvOther tag_op (zvalidate pv_truthy n (with_names specs)) (fun _ _ => PvRaw) (fun _ _ => PvRaw) tag_env
+                   n (if user_init then IUser (map PvUser (seq 0 n)) else IComputed (repeat PvRaw n))
                    fixed n_outer n_inner PvRaw
   else Err.
 
-(* admm called on its own (n_const = 1, order = 0): provenance of the returned primal variable *)
-Definition model_admm (specs : list (@spec pv)) (n_iter : nat) : res prov :=
+(* admm called on its own with n_const = n, order: provenance of the returned primal variable (the start value is PvUser 0) *)
+Definition model_admm (n : nat) (specs : list (@zspec pv)) (order n_iter : nat) : res prov :=
   if Nat.eqb (length specs) 12 then
     rbind (admm (fun _ _ => PvRaw) (fun _ _ => PvRaw) n_iter (fun _ _ => PvRaw) (fun _ _ _ _ => false)
-                (proximal_operator pv_truthy (fun k p _ => PvOp k p) 1 (with_names specs) 0) (PvUser 0) PvRaw)
+                (proximal_operator tag_op (zvalidate pv_truthy n (with_names specs)) order) (PvUser 0) PvRaw)
           (fun r => Ok (fst (fst r)))
   else Err.
 
+(* proximal_operator called on its own: which operator produced the output (PvRaw = the input itself) *)
+Definition model_prox (n : nat) (specs : list (@zspec pv)) (order : nat) : res prov :=
+  if Nat.eqb (length specs) 12 then proximal_operator tag_op (zvalidate pv_truthy n (with_names specs)) order PvRaw else Err.
+
 Inductive case :=
-| CTable (id n : nat) (specs : list (@spec pv)) (expected : res (list (option (kind * pv))))
-| CTrace (id n : nat) (specs : list (@spec pv)) (user_init : bool) (fixed : list nat) (n_outer n_inner : nat)
+| CTable (id n : nat) (specs : list (@zspec pv)) (expected : res (list (option (kind * pv))))
+| CTrace (id n : nat) (specs : list (@zspec pv)) (user_init : bool) (fixed : list nat) (n_outer n_inner : nat)
          (expected : res (list prov))
-| CAdmm (id : nat) (specs : list (@spec pv)) (n_iter : nat) (expected : res prov).
+| CAdmm (id n : nat) (specs : list (@zspec pv)) (order n_iter : nat) (expected : res prov)
+| CProx (id n : nat) (specs : list (@zspec pv)) (order : nat) (expected : res prov).
 
 Definition agree (c : case) : bool :=
   match c with
   | CTable _ n specs expected => res_eqb (list_eqb entry_eqb) (model_table n specs) expected
   | CTrace _ n specs ui fixed no ni expected => res_eqb (list_eqb prov_eqb) (model_trace n specs ui fixed no ni) expected
-  | CAdmm _ specs ni expected => res_eqb prov_eqb (model_admm specs ni) expected
+  | CAdmm _ n specs order ni expected => res_eqb prov_eqb (model_admm n specs order ni) expected
+  | CProx _ n specs order expected => res_eqb prov_eqb (model_prox n specs order) expected
   end.
 Definition ident (c : case) : nat :=
-  match c with CTable i _ _ _ => i | CTrace i _ _ _ _ _ _ _ => i | CAdmm i _ _ _ => i end.
+  match c with CTable i _ _ _ => i | CTrace i _ _ _ _ _ _ _ => i | CAdmm i _ _ _ _ _ => i | CProx i _ _ _ _ => i end.
 Definition failing := failing_ids agree ident.
